@@ -318,10 +318,13 @@ fn check_type_relation<T: TypeLookup>(
 
         // Union on left side: mode determines ALL vs ANY semantics
         (Type::Union(variants), _) => {
-            // Insert assumption for recursive types
+            // Insert assumption for recursive types. It is a hypothesis of this derivation only:
+            // if the derivation fails, it and everything concluded under it are withdrawn, so a
+            // refuted pair is not taken for granted by a later alternative.
+            let saved = assumptions.clone();
             assumptions.insert(key);
 
-            match mode {
+            let result = match mode {
                 UnionMode::All => variants.iter().all(|&variant_id| {
                     check_type_relation(
                         variant_id,
@@ -342,7 +345,11 @@ fn check_type_relation<T: TypeLookup>(
                         type_stack,
                     )
                 }),
+            };
+            if !result {
+                *assumptions = saved;
             }
+            result
         }
 
         // Union on right side: self must match ANY variant (same for both modes)
@@ -351,6 +358,7 @@ fn check_type_relation<T: TypeLookup>(
             // that returns to this same pair — e.g. a recursive type reached through a
             // union-on-right then a cycle — terminates at the assumption check above instead of
             // recursing without bound.
+            let saved = assumptions.clone();
             assumptions.insert(key);
 
             let already_on_stack = type_stack.contains(&pattern_id);
@@ -362,6 +370,10 @@ fn check_type_relation<T: TypeLookup>(
             });
             if !already_on_stack {
                 type_stack.pop();
+            }
+            if !result {
+                // a failed derivation withdraws its hypothesis (see the union-on-left arm)
+                *assumptions = saved;
             }
             result
         }
